@@ -38,3 +38,29 @@ contract(TTY + "._current_triple", params={}, returns=Tup(Opt(Str), Opt(Str), Op
     ensures=["result[0] == self._tmp_s and result[1] == self._tmp_p and result[2] == self._tmp_o"], raises=[], props=["C07"])
 contract(TTY + "._find_next_blank@canary", params={"target_str": Str, "start_index": Int}, returns=Int,
     requires=["0 <= start_index and start_index <= len(target_str)"], ensures=["result < len(target_str)"], props=["C07"], canary=True)
+
+# ---- <...> tokens under @base (C07: "IRIs after prefix / base expansion") ----------------------------------------------------------------
+CE = "cornered_element"
+contract(TTY + "._parse_cornered_element", params={CE: Str}, returns=Str,
+    requires=["len(%s) >= 2" % CE, "%s.startswith('<')" % CE, "%s.endswith('>')" % CE],
+    ensures=[# no base in force: the token is the IRI
+             "implies(self._base is None, result == %s)" % CE,
+             # an absolute http / https IRI is never touched by the base (other schemes: open finding F-C07-base-non-http-absolute-iri)
+             "implies(%s[1:].startswith('http://') or %s[1:].startswith('https://'), result == %s)" % (CE, CE, CE),
+             # a plain relative reference (no leading '/' or '#', not http...) is appended to the base
+             "implies(self._base is not None and not %s[1:].startswith('http') and str_at(%s, 1) != '/' and str_at(%s, 1) != '#',"
+             " result == '<' + some(self._base) + %s[1:-1] + '>')" % (CE, CE, CE, CE)],
+    raises=[], modifies=[], props=["C07", "C08"],
+    note="a <...> token: unchanged without @base and for absolute http(s) IRIs, base + reference for a plain relative reference")
+
+# ---- end of a quoted literal: the first quote whose run of preceding backslashes is even ---------------------------------------------------
+EVEN_RUN = ("exists(Int, lambda k: k >= 0 and k % 2 == 0 and k <= {r} and in_re(target_str[{r} - k:{r}], 'backslashes')"
+            " and (k == {r} or str_at(target_str, {r} - k - 1) != '\\\\'))")
+contract(TTY + "._find_next_unescaped_quotes", params={"target_str": Str, "start_index": Int}, returns=Int,
+    requires=["1 <= start_index and start_index <= len(target_str)"],
+    ensures=["start_index <= result and result < len(target_str)", "str_at(target_str, result) == '\"'", EVEN_RUN.format(r="result")],
+    raises=[("ValueError", "?True")],
+    loops={0: {"invariant": ["pos == -1 or (start_index <= pos and pos < len(target_str) and str_at(target_str, pos) == '\"')"]}},
+    props=["C07"],
+    note="the position returned holds a quote that is NOT escaped: the maximal run of backslashes right before it has even length "
+         "(uses the contract of _count_prior_backslashes, not its body)")
